@@ -1306,3 +1306,34 @@ def rule_scoped_replacement_spelling(ctx, rep: Report, rid="S9"):
                 f"(gtsam::gtsam::Pose3::Value) for every concrete type that lives in a namespace", f"{mi.rel}:{st.lineno}")
         rep.add(rid, "scoped use:the copied Typename keeps the concrete type's namespaces and template arguments", keeps,
                 f"`{holder}`.namespaces / .instantiations are overwritten after the copy", f"{mi.rel}:{st.lineno}", nontrivial=not keeps)
+
+
+def rule_nested_forms(ctx, rep: Report, rid="S2"):
+    """Which spellings of a template parameter are rewritten *below* the top level of a type expression.  A form is handled
+    at every depth only if its test sits inside the function that walks the template-argument tree recursively; a test in a
+    plain loop over `ctype.typename.instantiations` reaches the first level only, a test on the whole type only the top."""
+    prog = ctx.prog
+    fn = prog.func(f"{TI}/helpers.py", "instantiate_type")
+    mi = prog.module(f"{TI}/helpers.py")
+    rec = [f for f in ast.walk(fn) if isinstance(f, ast.FunctionDef) and f is not fn
+           and any(isinstance(c, ast.Call) and isinstance(c.func, ast.Name) and c.func.id == f.name for c in ast.walk(f))
+           and any(isinstance(l, ast.For) and unparse(l.iter).endswith(".instantiations") for l in ast.walk(f))]
+    if not rec:
+        raise AnalysisError("instantiate_type: recursive walk over the template arguments not found")
+    txt = " ".join(unparse(f) for f in rec)
+    forms = {
+        "a bare parameter (std::vector<std::vector<T>>)": any(
+            isinstance(c, ast.Compare) and isinstance(c.ops[0], ast.In) and unparse(c.left).endswith(".name") for f in rec for c in ast.walk(f)),
+        "the reserved name This (std::vector<This>, std::vector<std::vector<This::K>>)": "'This'" in txt,
+        "a scoped parameter (std::vector<T::Value>)": ".namespaces" in txt,
+    }
+    witnesses = {
+        "the reserved name This (std::vector<This>, std::vector<std::vector<This::K>>)":
+            "`template<T={ns::V}> class C { void f(std::vector<This> x); }` keeps `std::vector<This>`; below the first level `This::K` is kept as well",
+        "a scoped parameter (std::vector<T::Value>)":
+            "`template<T={ns::V}> class C { void g(std::vector<T::Value> y); }` keeps `std::vector<T::Value>`",
+    }
+    for form, ok in forms.items():
+        rep.add(rid, f"nested:{form.split(' (')[0]}:rewritten at every depth of the template arguments", ok,
+                f"the recursive walk ({', '.join(f.name for f in rec)}) has no case for {form}: {witnesses.get(form, '')} - the property asks for "
+                f"every occurrence at any depth", f"{mi.rel}:{rec[0].lineno}")
